@@ -796,6 +796,7 @@ def file_lines(hdr, insts, working=False, states=None):
 
 _ID_TOKEN = re.compile(r"^#([0-9]+)$")
 _UINT_TOKEN = re.compile(r"^[0-9]+$")
+_REAL_TOKEN = re.compile(r"^([+-]?)([0-9]+)\.([0-9]*)(E[+-]?[0-9]+)?$")
 
 
 def respell(text, kind, spell):
@@ -806,8 +807,20 @@ def respell(text, kind, spell):
         m = _ID_TOKEN.match(text)
         if m and spell.get("id_pad"):
             return "#" + m.group(1).rjust(spell["id_pad"], "0")
-        if kind == "val" and spell.get("plus_int") and _UINT_TOKEN.match(text):
-            return "+" + text
+        if kind == "val" and _UINT_TOKEN.match(text):
+            if spell.get("zero_pad"):
+                text = "00" + text               # digits may start with zeros: 007
+            if spell.get("plus_int"):
+                text = "+" + text
+            return text
+        if kind == "val" and spell.get("zero_pad"):
+            m = _REAL_TOKEN.match(text)
+            if m:
+                sign, ip, fp, ex = m.groups()
+                if ex:
+                    es = ex[1] if ex[1] in "+-" else ""
+                    ex = "E" + es + "00" + ex[1 + len(es):]       # 1.5E+007
+                return (sign or "") + "0" + ip + "." + fp + (ex or "")   # 01.5
     return text
 
 
@@ -1105,15 +1118,26 @@ def value_diff(model, got, path="v"):
     return None
 
 
+def _same_number(a, b):
+    """exact numeric equality of two decimal spellings (no rounding: Decimal keeps every digit)"""
+    import decimal
+    try:
+        return decimal.Decimal(a) == decimal.Decimal(b)
+    except decimal.InvalidOperation:
+        return a == b
+
+
 def strict_same(model, got):
     """harness self-check: the parser must reproduce the model exactly (num ~ int/real by text)."""
     mk = model[0]
     if mk == "num":
         if got[0] == "int":
-            return str(got[1]) == model[1].lstrip("+") or str(got[1]) == model[1]
-        return got[0] == "real" and got[1] == model[1]
+            return "." not in model[1] and _same_number(str(got[1]), model[1])
+        return got[0] == "real" and _same_number(got[1], model[1])
     if mk != got[0]:
         return False
+    if mk == "real":
+        return _same_number(model[1], got[1])      # the renderer may choose another conforming spelling (01.5E+007) of the same number
     if mk == "list":
         return len(model[1]) == len(got[1]) and all(strict_same(a, b) for a, b in zip(model[1], got[1]))
     if mk == "typed":
